@@ -9,14 +9,14 @@ Definition show_task (t : task) : string := show_nat (fst t) ++ (if snd t then "
 
 Definition show_ev (e : ev) : string :=
   match e with
-  | EAccepted => "ok"
+  | EAccepted _ => "ok"
   | ERefused => "AQ"
   | ELimit => "lim"
   | ECreate w _ _ => "c" ++ show_nat w
   | EDo w _ => "d" ++ show_nat w
   | EWQuit w => "q" ++ show_nat w
   | ECoordQuit => "Q"
-  | EBacklog _ => "b"
+  | EBacklog _ _ _ => "b"
   | ERan w t => "r" ++ show_nat w ++ ":" ++ show_task t
   | ENothing => "-"
   end.
